@@ -396,3 +396,90 @@ Print Assumptions C01_reified_certificate2_total.
 Example C01_ex_reified : wfb3 ex_part = true /\ (forall E, exists o, interp3 E (inj3 ex_part) = Some o) /\
   forall E o, interp3 E (inj3 ex_part) = Some o -> enc3 o.
 Proof. exact (conj ex_part_wf (conj ex_part_builds ex_part_enclosed)). Qed.
+
+(* ============================================================ primitives outside sdf2.go / sdf3.go
+   (sdf/cams.go, sdf/flange.go, sdf/spiral.go, sdf/rack.go; model Sdf/Prim2X.v, proofs Sdf/Prim2XR.v).
+   The hand-written model functions are equal to the terms translated from the current Go source
+   (Sdf/GenEqX.v: FlatFlankCam2D, MakeFlatFlankCam, NewFlange1, ThreeArcCam2D, their Evaluate methods,
+   GearRackSDF2.Evaluate, polarDist2); ArcSpiral2D is tied by differential execution.  The hypotheses
+   written out are exactly what the Go constructors do not check themselves. *)
+From Coq Require Import Qreals.
+From Sdfx Require Sdf.GenEqX.
+From Sdfx Require Import Sdf.Prim2X Sdf.Prim2XR.
+
+(* FlatFlankCam2D validates nothing.  Either circle may be the larger one (box repaired by c241c7a);
+   the circles must not be nested, otherwise there is no tangent flank (sin >= 1, cos = NaN) *)
+Theorem C01_flatflankcam_encloses : forall distance baseRadius noseRadius o,
+  0 < distance -> 0 <= baseRadius -> 0 <= noseRadius -> Rabs (baseRadius - noseRadius) < distance ->
+  @k_flatflankcam ROps distance baseRadius noseRadius = Some o -> enc2 o.
+Proof. exact flatflankcam_enc. Qed.
+Print Assumptions C01_flatflankcam_encloses.
+(* MakeFlatFlankCam checks its design parameters: no hypothesis at all *)
+Theorem C01_makeflatflankcam_encloses : forall lift duration maxDiameter o,
+  @k_makeflatflankcam ROps lift duration maxDiameter = Some o -> enc2 o.
+Proof. exact makeflatflankcam_enc. Qed.
+Print Assumptions C01_makeflatflankcam_encloses.
+(* NewFlange1 validates nothing; box repaired by 9483321 *)
+Theorem C01_flange1_encloses : forall distance centerRadius sideRadius o,
+  0 < distance -> 0 <= centerRadius -> 0 <= sideRadius -> Rabs (centerRadius - sideRadius) < distance ->
+  @k_flange1 ROps distance centerRadius sideRadius = Some o -> enc2 o.
+Proof. exact flange1_enc. Qed.
+Print Assumptions C01_flange1_encloses.
+(* ThreeArcCam2D checks flankRadius >= (baseRadius + distance + noseRadius) / 2 only; the theorem needs the
+   strict inequality (at equality the flank centre is on the axis and the cam is the flank circle), circles
+   that are not nested, and is about the repaired box (6b60422: the flank arc may bulge beyond both circles) *)
+Theorem C01_threearccam_encloses : forall distance baseRadius noseRadius flankRadius o,
+  0 < distance -> 0 <= baseRadius -> 0 <= noseRadius -> Rabs (baseRadius - noseRadius) < distance ->
+  (baseRadius + distance + noseRadius) / 2 < flankRadius ->
+  @k_threearccam ROps distance baseRadius noseRadius flankRadius = Some o -> enc2 o.
+Proof. exact threearccam_enc. Qed.
+Print Assumptions C01_threearccam_encloses.
+(* ArcSpiral2D checks a <> 0 and start <> end; every slope, offset k (negative polar radii included),
+   angle range of either order and sign, any band half-width d >= 0.  The two `for` loops of Evaluate are
+   modelled with a fuel of trunc(gap / 2pi) + 2 iterations, proved sufficient (C01_spiral_loops_reach) *)
+Theorem C01_arcspiral_encloses : forall a k start end_ d o, 0 <= d ->
+  @k_arcspiral ROps a k start end_ d = Some o -> enc2 o.
+Proof. exact arcspiral_enc. Qed.
+Print Assumptions C01_arcspiral_encloses.
+Theorem C01_spiral_loops_reach : forall theta lim,
+  lim <= @up_loop ROps (@loop_fuel ROps (lim - theta)) theta lim /\
+  @down_loop ROps (@loop_fuel ROps (theta - lim)) theta lim <= lim.
+Proof. exact (fun theta lim => conj (up_loop_reaches _ _ _ (loop_fuel_enough _)) (down_loop_reaches _ _ _ (loop_fuel_enough _))). Qed.
+Print Assumptions C01_spiral_loops_reach.
+(* GearRackSDF2 over any enclosed tooth profile, for the stored fields; and GearRack2D for every parameter
+   vector it accepts, given the tooth polygon it built (enclosed by C01_mesh2_encloses, box = hull of the
+   six half-tooth vertices, y from 0 to the tooth height) *)
+Theorem C01_rack2_encloses : forall (tooth : Obj2 ROps) pitch length bb o,
+  enc2 tooth -> rack_box_ok (bb2 tooth) length bb -> @k_rack2 ROps tooth pitch length bb = Some o -> enc2 o.
+Proof. exact rack2_enc. Qed.
+Print Assumptions C01_rack2_encloses.
+Theorem C01_gearrack_encloses : forall (tooth : Obj2 ROps) numberTeeth module pressureAngle backlash baseHeight o,
+  enc2 tooth -> 0 <= vy (b2min (bb2 tooth)) -> vy (b2max (bb2 tooth)) <= @gearrack_height ROps module baseHeight ->
+  @k_gearrack ROps tooth numberTeeth module pressureAngle backlash baseHeight = Some o -> enc2 o.
+Proof. exact gearrack_enc. Qed.
+Print Assumptions C01_gearrack_encloses.
+(* the checker's side conditions for these leaves, evaluated on the dumped rationals, imply the real ones *)
+Theorem C01_prim2_check_sound : forall p : Prim2 QOps, prim2_wfb p = true ->
+  forall o, @k_prim2 ROps (map_prim2 (A := QOps) (B := ROps) Q2R p) = Some o -> enc2 o.
+Proof. exact (fun p W o H => prim2_enc _ o (prim2_wfb_sound p W) H). Qed.
+Print Assumptions C01_prim2_check_sound.
+(* hypotheses satisfiable: the cams of examples/benchmark, a spiral through the centre, a cam with the larger nose *)
+Example C01_ex_prims :
+  (prim2_wfb (PFlatFlankCam (O := QOps) 30 20 5) = true /\ prim2_wfb (PThreeArcCam (O := QOps) 30 20 5 200) = true /\
+   prim2_wfb (PFlange1 (O := QOps) (13 # 32) (5 # 16) (5 # 32)) = true /\ prim2_wfb (PArcSpiral (O := QOps) 1 (-(10)) 0 12 (1 # 2)) = true /\
+   prim2_wfb (PFlatFlankCam (O := QOps) 10 2 5) = true)%Q.
+Proof. vm_compute. repeat split. Qed.
+
+(* ---- inventory of mutable state (DESIGN.md 2.3).  The models above are functions of their arguments; they are
+   faithful only as long as the code keeps no state between calls beyond what they mention.  The package-level
+   variables and struct fields in the scope of C01 (and which of them are written outside construction, from which
+   entry points) are regenerated from the current source on every run (harness/stategen -> Generated/StateInv.v)
+   and contain no state beyond the expected, reviewed inventory of Sys/StateInvSpec.v, where every piece of state
+   that legitimately exists names the model component that accounts for it.  Breaks when a written package-level
+   variable, a struct field, or a write of a field outside its constructor is added in scope (coqc then prints the
+   differences); tolerates moved declarations, reordered fields, renamed locals, new helpers / constants / tables
+   nothing writes. *)
+From Sdfx Require Sys.StateInvSpec Sys.StateInvC01.
+Theorem C01_state_inventory : Sdfx.Sys.StateInvSpec.state_ok_C01 = true.
+Proof. exact Sdfx.Sys.StateInvC01.C01_state_inventory. Qed.
+Print Assumptions C01_state_inventory.
